@@ -242,6 +242,23 @@ def C(s):
         return "!" + inner
     if s.startswith("(") and _matching(s, 0) == len(s) - 1:
         body = s[1:-1]
+        q = _split_top(body, ["?"])
+        if q:
+            # (c ? a : b): canonicalise the three parts; the polarity of c is left as written
+            rest = q[2]
+            depth, k = 0, None
+            for i, ch in enumerate(rest):
+                if ch in "([":
+                    depth += 1
+                elif ch in ")]":
+                    depth -= 1
+                elif ch == "?" and depth == 0:
+                    depth += 1000      # nested ?: without parentheses: give up on finding the matching colon
+                elif ch == ":" and depth == 0 and not (i + 1 < len(rest) and rest[i + 1] == ":") and not (i > 0 and rest[i - 1] == ":"):
+                    k = i
+                    break
+            if k is not None:
+                return "(%s?%s:%s)" % (C(q[0]), C(rest[:k]), C(rest[k + 1:]))
         for group in (["||"], ["&&"], ["==", "!=", "<=", ">=", "<", ">"], ["=", "+=", "-=", "|=", "&="], ["<<", ">>"], ["+", "-"], ["*", "/", "%"], ["&", "|", "^"]):
             sp = _split_top(body, group)
             if sp:
